@@ -31,6 +31,23 @@ def gen_c19(repo):
             raise X.ExtractError(f'{fn}: std::regex_match call not recognised')
         out.append(f'/-- `{fn}` matches the whole `string_view` (`begin(), end()`), not the C string at `data()` -/\ndef {name} : Bool := {whole}\n')
 
+    # the hand-written variants (#else branches): bounds, the extra name characters, and the two guards of D62
+    nb = X._one(r'InstrumentMetaDataValidator::ValidateName\s*\(.*?\)\s*const\s*\{.*?#else(.*?)#endif', txt, 'ValidateName #else branch').group(1)
+    ub = X._one(r'InstrumentMetaDataValidator::ValidateUnit\s*\(.*?\)\s*const\s*\{.*?#else(.*?)#endif', txt, 'ValidateUnit #else branch').group(1)
+    out.append(f'def handNameMaxSize : Nat := {X._int_const(nb, "kMaxSize", "kMaxSize of the hand-written ValidateName")}\n')
+    out.append(f'def handUnitMaxSize : Nat := {X._int_const(ub, "kMaxSize", "kMaxSize of the hand-written ValidateUnit")}\n')
+    if not re.search(r'if\s*\(\s*!\s*isalpha\(\s*name\[0\]\s*\)\s*\)\s*\{\s*return\s+false', nb):
+        raise X.ExtractError('hand-written ValidateName: first-character test not recognised')
+    m = X._one(r'return\s+!\s*isalnum\(c\)((?:\s*&&\s*\(\s*c\s*!=\s*\'.\'\s*\))*)\s*;', nb, 'hand-written ValidateName: character test')
+    extra = [ord(c) for c in re.findall(r"'(.)'", m.group(1))]
+    out.append(f'/-- characters the hand-written `ValidateName` allows after the first besides `isalnum` -/\ndef handNameExtraChars : List UInt8 := {X.lean_bytes(extra)}\n')
+    out.append('/-- the hand-written `ValidateName` returns false for an empty name before it reads `name[0]` (D62) -/\n'
+               'def handNameChecksEmpty : Bool := ' + ('true' if re.search(r'name\.empty\(\)\s*\|\|', nb) else 'false') + '\n')
+    if not re.search(r'static_cast<unsigned char>\(c\)\s*>\s*127', ub):
+        raise X.ExtractError('hand-written ValidateUnit: > 127 test not recognised')
+    out.append('/-- the hand-written `ValidateUnit` rejects NUL like the regex `[\\x01-\\x7F]` does (D62) -/\n'
+               'def handUnitRejectsNul : Bool := ' + ('true' if re.search(r"c\s*==\s*'\\0'\s*\|\|", ub) else 'false') + '\n')
+
     da = X._strip_comments(X._read(repo, 'sdk/include/opentelemetry/sdk/metrics/aggregation/default_aggregation.h'))
     fn = X._one(r'static\s+AggregationType\s+GetDefaultAggregationType\s*\(.*?\)\s*\{(.*?)\n  \}', da, 'GetDefaultAggregationType').group(1)
     rows = []
